@@ -56,7 +56,6 @@ References:
     Proceedings of the ACM on Programming Languages, 7(POPL), 121-148.
 """
 
-import itertools as it
 from abc import abstractmethod
 from functools import wraps
 
@@ -592,12 +591,13 @@ class ADEV(Pytree):
                             )
                         )
 
-                        # NOTE: JAX stores conditional branches in reverse order in the params.
-                        # We reverse them here to match the expected order for jax.lax.cond.
-                        # This is a JAX implementation detail that may change in future versions.
-                        return jax.lax.cond(
+                        # cond_p carries an integer branch index and its branches in
+                        # index order (lax.cond's false branch is index 0), for
+                        # lax.cond and lax.switch with any number of branches alike.
+                        return jax.lax.switch(
                             Dual.tree_primal(in_vals[0]),
-                            *it.chain(reversed(branch_adev_functions), in_vals[1:]),
+                            branch_adev_functions,
+                            *in_vals[1:],
                         )
 
                     # Default JVP rule for other JAX primitives.
